@@ -300,3 +300,41 @@ mod tests {
         assert_eq!(CHAOS_COUNT.load(Ordering::SeqCst), 0);
     }
 }
+
+/// Verification hooks (feature `crux_verif`, off by default): construct the crate-private
+/// executor and observe its queues.
+#[cfg(feature = "crux_verif")]
+pub mod verif_hooks {
+    use super::{executor_and_spawner, QueuingExecutor, Spawner};
+
+    /// The real executor behind a public name.
+    pub struct Executor(QueuingExecutor);
+
+    /// Create the real executor/spawner pair.
+    pub fn new_executor() -> (Executor, Spawner) {
+        let (executor, spawner) = executor_and_spawner();
+        (Executor(executor), spawner)
+    }
+
+    impl Executor {
+        /// Call the real `run_all`.
+        pub fn run_all(&self) {
+            self.0.run_all();
+        }
+
+        /// Number of task slots in use (including slots whose future is being polled).
+        pub fn live_tasks(&self) -> usize {
+            self.0.tasks.lock().expect("Task slab poisoned").len()
+        }
+
+        /// Number of task ids waiting in the ready queue.
+        pub fn ready_len(&self) -> usize {
+            self.0.ready_queue.len()
+        }
+
+        /// Number of spawned-but-not-yet-adopted futures.
+        pub fn spawn_len(&self) -> usize {
+            self.0.spawn_queue.len()
+        }
+    }
+}
